@@ -270,6 +270,15 @@ def gen_pitch(out):
     rate2 = int(find("rate_opn2", fam, r"OPNFamilyTraits<OPNChip_OPN2>.*?nativeRate = (\d+),").group(1))
     clka = int(find("clock_opna", fam, r"OPNFamilyTraits<OPNChip_OPNA>.*?nativeRate = (\d+),\s*nativeClockRate = (\d+)").group(2))
     ratea = int(find("rate_opna", fam, r"OPNFamilyTraits<OPNChip_OPNA>.*?nativeRate = (\d+),").group(1))
+    # YMFM front-ends: size of the register queue, the guard that keeps it a FIFO when it is full, one dequeue per native frame
+    q2 = int(find("ymfm_queue_opn2", src("src/chips/ymfm_opn2.h"), r"static const size_t c_queueSize = (\d+);").group(1))
+    qa = int(find("ymfm_queue_opna", src("src/chips/ymfm_opna.h"), r"static const size_t c_queueSize = (\d+);").group(1))
+    y2, ya = strip_comments(src("src/chips/ymfm_opn2.cpp")), strip_comments(src("src/chips/ymfm_opna.cpp"))
+    find("ymfm_full_guard_opn2", y2, r"void YmFmOPN2::writeReg\([^)]*\)\s*\{\s*if\(m_queueCount >= static_cast<long>\(c_queueSize\)\)\s*\{.*?m_queue\[m_tailPos\+\+\].*?--m_queueCount;.*?chip_r->write\(.*?chip_r->write\(.*?\}\s*Reg &back = m_queue\[m_headPos\+\+\];")
+    find("ymfm_full_guard_opna", ya, r"void YmFmOPNA::writeReg\([^)]*\)\s*\{\s*if\(p->m_queueCount >= static_cast<long>\(c_queueSize\)\)\s*\{.*?p->m_queue\[p->m_tailPos\+\+\].*?--p->m_queueCount;.*?chip_r->write\(.*?chip_r->write\(.*?\}\s*p->writeReg\(port, addr, data\);")
+    find("ymfm_dequeue_opn2", y2, r"if\(m_queueCount > 0\)\s*\{\s*const Reg &front = m_queue\[m_tailPos\+\+\];\s*if\(m_tailPos >= c_queueSize\)\s*m_tailPos = 0;\s*--m_queueCount;")
+    find("ymfm_enqueue_opn2", y2, r"Reg &back = m_queue\[m_headPos\+\+\];.*?if\(m_headPos >= c_queueSize\)\s*m_headPos = 0;\s*\+\+m_queueCount;")
+    rsm = int(find("rsm_frac", src("src/chips/opn_chip_base.h"), r"rsm_frac = (\d+)").group(1))
     mp = src("src/opnmidi_midiplay.hpp")
     find("bend_unit", mp, r"bendsense = cent \* \(1\.0 / \(128 \* 8192\)\);")
     L = ["-- GENERATED by tools/translate.py from /repo (do not edit)", "namespace Opn.Gen",
@@ -282,6 +291,7 @@ def gen_pitch(out):
          "def pitchHertzLimit : Rat := %s" % rat_lean(double_exact(lim)),
          "def clockOPN2 : Nat := %d" % clk2, "def clockOPNA : Nat := %d" % clka,
          "def nativeRateOPN2 : Nat := %d" % rate2, "def nativeRateOPNA : Nat := %d" % ratea,
+         "def ymfmQueueSizeOPN2 : Nat := %d" % q2, "def ymfmQueueSizeOPNA : Nat := %d" % qa, "def rsmFrac : Nat := %d" % rsm,
          "end Opn.Gen"]
     out["Pitch.lean"] = "\n".join(L) + "\n"
     return {"pitch_c": c, "pitch_coef_opn2": coef2, "pitch_coef_opna": coefa, "pitch_t1": t1, "pitch_t2": t2, "pitch_limit": lim,
